@@ -183,7 +183,11 @@ theorem ts_runThunk (t : Thunk) (w : World) :
     · intro h; simp [runThunk, termFuel, tInput, h, Terminator.table]
     · intro h; right; simp [runThunk, termFuel, tInput, h, Terminator.table, tOuts, andThen, emit]
     · intro h _; simp [runThunk, termFuel, tInput, h, Terminator.table, tOuts, andThen, emit]
-  | waiter i ok => exact ⟨fun h => h, Or.inl, fun _ e => by simp at e⟩
+  | waiter i ok =>
+    obtain ⟨ws, rg, e⟩ := resolveWaiter_same i ok w
+    have e' : runThunk (.waiter i ok) w = { w with waiters := ws, registered := rg } := e
+    rw [e']
+    exact ⟨fun h => h, Or.inl, fun _ e => by simp at e⟩
 
 theorem runThunks_ts_stopped (l : List Thunk) (w : World) (h : w.ts = .S_stopped) : (runThunks l w).ts = .S_stopped := by
   induction l generalizing w with
